@@ -233,7 +233,10 @@ func (self *Analyzer) identExpression(node pAst.IdentExpression) ast.AnalyzedIde
 		}
 
 		// only mark the function as `used` if the usage originates from another function
-		if self.currentModule.CurrentFunction.FnType.Kind() == normalFunctionKind {
+		// (or from outside any function, e.g. the initializer of a global)
+		if self.currentModule.CurrentFunction == nil {
+			fn.Used = true
+		} else if self.currentModule.CurrentFunction.FnType.Kind() == normalFunctionKind {
 			currFn := self.currentModule.CurrentFunction.FnType.(normalFunction)
 			if fn.FnType.Kind() == normalFunctionKind {
 				toBeCalled := fn.FnType.(normalFunction)
